@@ -16,6 +16,7 @@ from __future__ import annotations
 
 import copy
 import re
+import unicodedata
 from html.entities import name2codepoint
 
 from chameleon.exc import LanguageError
@@ -190,13 +191,21 @@ def parse_defines(clause):
         context = context or "local"
 
         if name.startswith('('):
-            names = [n.strip() for n in name.strip('()').split(',')]
+            names = [
+                _normalize(n.strip()) for n in name.strip('()').split(',')]
         else:
-            names = (name,)
+            names = (_normalize(name),)
 
         defines.append((context, names, expr))
 
     return defines
+
+
+def _normalize(name):
+    # Python compares identifiers in NFKC form: an expression reads the
+    # variable under its normalized name.
+    normalized = unicodedata.normalize('NFKC', name)
+    return name if normalized == name else normalized
 
 
 def prepare_attributes(attrs, dyn_attributes, i18n_attributes,
